@@ -294,7 +294,10 @@ def rowscan_configs(tier):
 
 
 # the third one: small codes with NEGATIVE ones among them (a lookup table indexed by the raw code would wrap them)
-ROWSCAN_EMBS = [(0, 1, 2, 3, 4, 5, 9), (-2, 255, 256, 70000, -70000, 2 ** 40, 11), (7, -1, 2, 300, -5, 5, 9)]
+# the fourth and fifth: neighbouring values half the dtype's range apart or more (INT64_MIN next to 0; -128 next to 0 and 100 in int8): differences
+# between sorted neighbours must not be taken in the array's own dtype
+ROWSCAN_EMBS = [(0, 1, 2, 3, 4, 5, 9), (-2, 255, 256, 70000, -70000, 2 ** 40, 11), (7, -1, 2, 300, -5, 5, 9),
+                (0, -2 ** 63, 3, 2 ** 62, 2 ** 62 + 1, 7, 9), (0, -128, 100, 5, 7, 127, 9)]
 
 
 def rowscan_arrays(shape, k, emb, dup):
@@ -457,6 +460,9 @@ def run_block(family, p, acc):
                     for rb in (("default",) if big else ("default", "int64", "map")):
                         ok = rowscan_one(a, emb7, common, cs, uc, mk, rb, cells, vals, acc, probe=first)
                         first = False
+                        if p["ei"] == 4 and not uc and rb == "default" and mk in ("none", "many"):
+                            # the same values in the narrowest signed dtype that holds them (int8)
+                            rowscan_one(a.astype(numpy.int8), emb7, common, cs, uc, mk, rb, cells, vals, acc, layout="int8")
                         if a.ndim == 2 and not uc and rb == "default" and mk in ("none", "inj"):
                             # the same values in Fortran order and as a transposed view (memory order != index order)
                             for lname, arr_in in (("F", numpy.asfortranarray(a)), ("T-view", numpy.ascontiguousarray(a.T).T)):
@@ -547,7 +553,9 @@ def replay(case, site=None):
             a[c] = v
         a = a.reshape(shape)
         common = {"omit": None, "dominant": emb7[0], "rare": vals[0], "absent": emb7[6]}[case["common"]]
-        if case.get("layout") == "F":
+        if case.get("layout") == "int8":
+            a = a.astype(numpy.int8)
+        elif case.get("layout") == "F":
             a = numpy.asfortranarray(a)
         elif case.get("layout") == "T-view":
             a = numpy.ascontiguousarray(a.T).T
